@@ -199,13 +199,7 @@ def build(spec) -> Built:
                 node = flow.Worker(builders[gi], nd['szin'], nd['szout'])
                 first_of_group[gi] = node
             out.nodes.append(node)
-        for sub in spec['subs']:
-            if sub[0] == 'a':
-                _, s, idx, p, pp = sub
-                out.nodes[s][idx].subscribe(out.nodes[p][pp])
-            else:
-                _, s, px, ppx, py, ppy = sub
-                out.nodes[s].train(out.nodes[px][ppx], out.nodes[py][ppy])
+        wire(out, spec, 0)
         head = out.nodes[spec['head']]
         tail = None if spec.get('tail') is None else out.nodes[spec['tail']]
         out.at_segment = True
@@ -213,6 +207,34 @@ def build(spec) -> Built:
     except Exception as e:  # pylint: disable=broad-except
         out.error = type(e).__name__
     return out
+
+
+def wire(built: Built, spec, stage):
+    """Subscribe what belongs to `stage` (spec['stages'][i] = the round in which subscription i is made; default 0)."""
+    stages = spec.get('stages') or [0] * len(spec['subs'])
+    for sub, st in zip(spec['subs'], stages):
+        if st != stage:
+            continue
+        if sub[0] == 'a':
+            _, s, idx, p, pp = sub
+            built.nodes[s][idx].subscribe(built.nodes[p][pp])
+        else:
+            _, s, px, ppx, py, ppy = sub
+            built.nodes[s].train(built.nodes[px][ppx], built.nodes[py][ppy])
+
+
+def advance(built: Built, spec, stage, rng_bit):
+    """The graph between the same head and tail is extended through the graph API; the segment is the same (head, tail)
+    pair - alternately the very same `Segment` object and a new, equal one."""
+    from forml import flow
+
+    try:
+        wire(built, spec, stage)
+        if rng_bit:
+            built.segment = flow.Segment(built.segment._head, built.segment._tail)  # pylint: disable=protected-access
+        return None
+    except Exception as e:  # pylint: disable=broad-except
+        return type(e).__name__
 
 
 def export(spec, built: Built):
@@ -288,12 +310,51 @@ class Recorder:
         self.loads, self.dumps, self.commits = [], [], []
 
 
+# what the accessor may answer instead of a state (`LoadOutcome` of lean/ForML/Model/Faults.lean): only `missing` is the
+# documented fallback ("no previous generation" -> no state); every other one must escape from the instruction
+FAULTS = ('missing', 'invalid', 'level', 'unexpected', 'crash')
+FAULT_MODEL = {'invalid': 'assetRefused', 'level': 'assetRefused', 'unexpected': 'assetRefused', 'crash': 'assetCrashed'}
+
+
+def fault_exc(kind):
+    import forml
+    from forml.io import asset
+
+    if kind == 'missing':
+        return forml.MissingError('no previous generation')
+    if kind == 'invalid':
+        return forml.InvalidError('unknown state reference')
+    if kind == 'level':
+        level = getattr(asset, 'Level', None)
+        return getattr(level, 'Invalid', forml.InvalidError)('Invalid level key')
+    if kind == 'unexpected':
+        return forml.UnexpectedError('unexpected registry answer')
+    return RuntimeError('registry unreachable')
+
+
+class FaultMarker:
+    """Entry of the fake generation: loading this position raises."""
+
+    def __init__(self, kind):
+        self.kind = kind
+
+
+class Fault(Exception):
+    """Oracle: evaluating the graph needs a state whose load the accessor refuses."""
+
+    def __init__(self, kind):
+        super().__init__(kind)
+        self.kind = kind
+
+
 def stored_index(i, b):
     """prev entry: True = a stored state, 'f' = a falsy stored state (e.g. b''), False = nothing at that position."""
     return None if not b else (FALSY + i if b == 'f' else i)
 
 
 def stored_term(i, b):
+    if b in FAULTS:
+        return FaultMarker(b)
     k = stored_index(i, b)
     return None if k is None else Term('stored', k)
 
@@ -319,11 +380,15 @@ def make_assets(spec, ex, rec: Recorder):
 
     class Release:
         def dump(self, state):
+            if a.get('dump_fault'):
+                raise fault_exc(a['dump_fault'])
             rec.dumps.append(state)
             return Term('dumped', state)
 
         def put(self, tag):
             # `State.commit` replaces its generation by what we return: the committed states become the previous ones
+            if a.get('commit_fault'):
+                raise fault_exc(a['commit_fault'])
             rec.commits.append(tuple(tag.states))
             return Generation([s.items[0] if isinstance(s, Term) and s.kind == 'dumped' else s for s in tag.states])
 
@@ -340,6 +405,8 @@ def make_assets(spec, ex, rec: Recorder):
             rec.loads.append(key)
             if self.states is None or not isinstance(key, int) or key >= len(self.states):
                 raise forml.MissingError('no previous generation')
+            if isinstance(self.states[key], FaultMarker):
+                raise fault_exc(self.states[key].kind)
             return self.states[key]
 
     gen = Generation(None if prev is None else [stored_term(i, b) for i, b in enumerate(prev)])
@@ -468,9 +535,21 @@ def canon_table(table, hashes):
 # --------------------------------------------------------------------------------------------------
 
 
+def prev_value(i, b):
+    """One entry of spec['assets']['prev'] as a canonical stored state: True / 'f' = a (falsy) stored state, False and
+    'missing' = no state, another fault kind = ['fault', kind], a canonical value (later rounds) = itself."""
+    if isinstance(b, list):
+        return b
+    if b in FAULTS:
+        return 'none' if b == 'missing' else ['fault', b]
+    if b == 'none' or not b:
+        return 'none'
+    return ['stored', stored_index(i, b)]
+
+
 def prev_values(prev):
-    """spec['assets']['prev'] (None | list of bool) as canonical stored states by list position."""
-    return None if prev is None else [['stored', stored_index(i, b)] if b else 'none' for i, b in enumerate(prev)]
+    """spec['assets']['prev'] as canonical stored states by list position."""
+    return None if prev is None else [prev_value(i, b) for i, b in enumerate(prev)]
 
 
 def eval_graph(ex, assets_spec, prev_vals='spec'):
@@ -491,7 +570,10 @@ def eval_graph(ex, assets_spec, prev_vals='spec'):
         if pers is None or gid not in pers:
             return 'none'
         i = pers.index(gid)
-        return prev[i] if prev is not None and i < len(prev) else 'none'
+        v = prev[i] if prev is not None and i < len(prev) else 'none'
+        if isinstance(v, list) and v and v[0] == 'fault':
+            raise Fault(v[1])  # the accessor refuses this load with something else than MissingError
+        return v
 
     memo: dict = {}
     onstack: set = set()
@@ -582,19 +664,19 @@ def assets_sexp(a, ngroups):
         return None
     pers = [p if isinstance(p, int) else ngroups + 100 + int(p[1:]) for p in a['persistent']]
     prev = a.get('prev')
-    return [pers, [] if prev is None else [['stored', stored_index(i, b)] if b else None for i, b in enumerate(prev)]]
+    def one(i, b):
+        v = prev_value(i, b)
+        if v == 'none':
+            return None
+        return ['error', FAULT_MODEL[v[1]]] if v[0] == 'fault' else v
+
+    return [pers, [] if prev is None else [one(i, b) for i, b in enumerate(prev)]]
 
 
-def run_impl(spec):
-    """Returns dict: built?, export, table (canonical), values, calls, commit, error class names."""
+def run_round(spec, built, ex, assets, rec, reruns):
+    """Compile the segment as it is now and execute the table (once, or four times against the evolving store)."""
     from forml import flow
 
-    built = build(spec)
-    if built.error:
-        return {'stage': 'build', 'error': built.error}
-    ex = export(spec, built)
-    rec = Recorder()
-    assets = make_assets(spec, ex, rec)
     out = {'stage': 'compile', 'export': ex}
     try:
         symbols = flow.compile(built.segment, assets)
@@ -612,17 +694,15 @@ def run_impl(spec):
     out['table'] = table
     out['kinds'] = [d[0] for _, d, _ in table]
     out['stage'] = 'run'
-    del CALLS[:]
+    del CALLS[:], rec.loads[:], rec.dumps[:], rec.commits[:]
     try:
         values, count = execute(symbols, rec)
-    except Cyclic:
-        out['error'] = 'Cyclic'
-        return out
-    except RecursionError:
+    except (Cyclic, RecursionError):
         out['error'] = 'Cyclic'
         return out
     except Exception as e:  # pylint: disable=broad-except
         out['error'] = type(e).__name__
+        out['commits'] = [canon(c) for c in rec.commits]  # what was committed although the execution failed
         return out
     out['values'] = {ids[k]: v for k, v in values.items()}
     out['once'] = all(c == 1 for c in count.values()) and len(count) == len(symbols)
@@ -635,7 +715,7 @@ def run_impl(spec):
     # through the same accessor (public `State.commit`) replaced the previous generation
     # …, and a fourth time after a commit from outside with more / fewer states than persistent groups (to be refused)
     out['reruns'] = []
-    if assets is not None:
+    if assets is not None and reruns:
         npers = len(spec['assets']['persistent'])
         for step in (2, 3, 4):
             r = {}
@@ -659,6 +739,42 @@ def run_impl(spec):
             except Exception as e:  # pylint: disable=broad-except
                 r['error'] = type(e).__name__
             out['reruns'].append(r)
+    return out
+
+
+def store_view(assets):
+    """The previous generation as the accessor holds it right now (canonical values by list position)."""
+    states = assets._generation.states  # pylint: disable=protected-access
+    if states is None:
+        return None
+    return [prev_value(i, v.kind) if isinstance(v, FaultMarker) else canon(v) for i, v in enumerate(states)]
+
+
+def run_impl(spec):
+    """One dict per compilation: built?, export, table (canonical), values, calls, commit, error class names. A spec with
+    'stages' is compiled once per stage, in one process, with the same head, tail and accessor: compile -> extend the graph
+    through the graph API -> compile again; the dicts of the later compilations are under 'rounds'."""
+    built = build(spec)
+    if built.error:
+        return {'stage': 'build', 'error': built.error}
+    ex = export(spec, built)
+    rec = Recorder()
+    assets = make_assets(spec, ex, rec)
+    nstages = max(spec.get('stages') or [0])
+    a = spec.get('assets') or {}
+    out = run_round(spec, built, ex, assets, rec,
+                    reruns=nstages == 0 and not (a.get('dump_fault') or a.get('commit_fault')))
+    out['rounds'] = []
+    for stage in range(1, nstages + 1):
+        err = advance(built, spec, stage, stage % 2 == 0)
+        if err is not None:
+            out['rounds'].append({'stage': 'build', 'error': err})
+            break
+        ex = export(spec, built)
+        view = None if assets is None else dict(spec['assets'], prev=store_view(assets))
+        r = run_round(spec, built, ex, assets, rec, reruns=False)
+        r['assets_view'] = view
+        out['rounds'].append(r)
     return out
 
 
@@ -794,9 +910,49 @@ def gen_spec(rng, size, *, mode=None, want_assets=None, malformed=False):
                             len(pers) + 2])
         prev = None if rng.random() < 0.3 else [rng.choice([True, True, True, 'f', 'f', False]) for _ in range(nprev)]
         spec['assets'] = {'persistent': pers, 'prev': prev}
+        r = rng.random()
+        if r < 0.12 and prev:
+            # the accessor answers one load with something else than a state: MissingError (documented fallback: no
+            # state) or a refusal / crash that has to escape
+            prev[rng.randrange(len(prev))] = rng.choice(FAULTS)
+        elif r < 0.16:
+            spec['assets'][rng.choice(['dump_fault', 'commit_fault'])] = rng.choice(FAULTS[1:])
     else:
         spec['assets'] = None
     return spec
+
+
+def stage_spec(rng, spec, nstages=None):
+    """The same segment put together in several rounds (compile -> extend the graph between the same head and tail ->
+    compile again): trained forks and dangling branches are attached in a later round. The trainers of persistent groups
+    move together (in a training segment the persistent list names trained groups only). None when nothing can move."""
+    subs, nodes = spec['subs'], spec['nodes']
+    pubs = set()
+    for sub in subs:
+        pubs |= {sub[3]} if sub[0] == 'a' else {sub[2], sub[4]}
+    trained = {sub[1] for sub in subs if sub[0] == 't'}
+    pers = set(p for p in spec['assets']['persistent'] if isinstance(p, int)) if spec.get('assets') else set()
+    ptrain = [i for i, sub in enumerate(subs) if sub[0] == 't' and nodes[sub[1]]['group'] in pers]
+    units = [[i] for i, sub in enumerate(subs) if sub[0] == 't' and i not in ptrain]
+    if ptrain:
+        units.append(ptrain)
+    for n in range(len(nodes)):
+        if n in pubs or n in trained or n in (spec['head'], spec['tail']):
+            continue
+        idxs = [i for i, sub in enumerate(subs) if sub[0] == 'a' and sub[1] == n]
+        if idxs:
+            units.append(idxs)
+    if not units:
+        return None
+    k = nstages or rng.choice([1, 1, 2])
+    stages = [0] * len(subs)
+    for unit in rng.sample(units, rng.randint(1, len(units))):
+        st = rng.randint(1, k)
+        for i in unit:
+            stages[i] = st
+    used = sorted(set(stages) - {0})
+    stages = [0 if st == 0 else used.index(st) + 1 for st in stages]
+    return dict(spec, stages=stages)
 
 
 def spec_weight(spec):
@@ -1093,7 +1249,12 @@ class C01(fw.Check):
             'flow.Segment acceptance and the traversal alone are compared (mechanism-level data). Round 5: payloads of both '
             'kinds - 30% of the groups have actors whose output and / or trained state is falsy in Python (bool False, len 0) '
             'yet carries its provenance, stored and externally committed states are truthy / falsy / absent; the corpus '
-            'shapes with every assignment of payload kinds to their groups (histogram key falsy=y).')
+            'shapes with every assignment of payload kinds to their groups (histogram key falsy=y). Round 6: the accessor '
+            'double answers a load with a state / MissingError / InvalidError / Level.Invalid / UnexpectedError / an arbitrary '
+            'exception at any position, and may fail the dump or the commit (12% + 4% of the cases with assets, plus a family); '
+            '25% of the random segments and a quarter of the trainer family are put together in 2..3 rounds in one process with '
+            'the same head, tail and accessor: compile + run, attach trained forks / dangling branches through the graph API, '
+            'compile + run again (every compilation is compared with the model and judged on the graph as it is then).')
     TRUSTED = [
         'symbolic actors/payloads (provenance terms): the flow layer is assumed payload-agnostic (parametricity, DESIGN 3) '
         'apart from truthiness, which is exercised: payloads are generated truthy and falsy-but-informative in every role',
@@ -1114,31 +1275,46 @@ class C01(fw.Check):
         'resolved tail)',
         'model and theorems are those of the code with fix C01-F1 (Linkage.leaves accepts an empty linkage)',
         'uuid4 keys never collide',
+        'accessor failures: only MissingError on a load is a documented fallback (no state); any other exception raised by '
+        'load / dump / commit has to escape from executing the table and nothing may be committed; dump and commit failures '
+        'are judged by the oracle only (the Lean store models load outcomes)',
     ]
 
     # ---- one batch ---------------------------------------------------------------------------
+    @staticmethod
+    def _line(ex, a, ngroups, rank):
+        return sexp.dumps(['all', seg_sexp(ex), assets_sexp(a, ngroups), ex['order'],
+                           [[u, r] for u, r in sorted((rank or {}).items())],
+                           [] if a is None else [['stored', ext_index(EXT, i)] for i in range(len(a['persistent']))],
+                           [] if a is None else [['stored', ext_index(2 * EXT, i)]
+                                                 for i in range(wrong_count(len(a['persistent'])))]])
+
+    @staticmethod
+    def _rounds(spec, impl):
+        """(round number, that round's view of the spec, its impl dict) for every compilation that got as far as export."""
+        out = [(0, spec, impl)]
+        for n, r in enumerate(impl.get('rounds', []), 1):
+            if 'export' in r:
+                out.append((n, dict(spec, assets=r['assets_view']), r))
+        return out
+
     def _batch(self, specs, stream):
         """Run specs through implementation + oracle, then the model in one driver call, and compare."""
-        impls, lines, keep = [], [], []
+        todo, lines = [], []
         for spec in specs:
             impl = run_impl(spec)
             if impl['stage'] == 'build':
                 self.case(('build', repr(spec)), f'{stream}: graph API refused ({impl["error"]})', nontrivial=False)
                 continue
-            ex = impl['export']
-            rank = topo_rank(ex)
-            impl['rank'] = rank
-            a = spec.get('assets')
-            line = sexp.dumps(['all', seg_sexp(ex), assets_sexp(a, len(spec['groups'])), ex['order'],
-                               [[u, r] for u, r in sorted((rank or {}).items())],
-                               [] if a is None else [['stored', ext_index(EXT, i)] for i in range(len(a['persistent']))],
-                               [] if a is None else [['stored', ext_index(2 * EXT, i)]
-                                                     for i in range(wrong_count(len(a['persistent'])))]])
-            impls.append((spec, impl))
-            lines.append(line)
+            for rnd, view, r in self._rounds(spec, impl):
+                r['rank'] = topo_rank(r['export'])
+                lines.append(self._line(r['export'], view.get('assets'), len(spec['groups']), r['rank']))
+                todo.append((spec, rnd, view, r))
+            if any(r.get('stage') == 'build' for r in impl.get('rounds', [])):
+                self.case(('build-later', repr(spec)), f'{stream}: graph API refused a later stage', nontrivial=False)
         answers = self.model(lines)
-        for (spec, impl), ans in zip(impls, answers):
-            self._compare(spec, impl, sexp.num(sexp.loads(ans)), stream)
+        for (spec, rnd, view, r), ans in zip(todo, answers):
+            self._compare(view, r, sexp.num(sexp.loads(ans)), stream, rnd, spec)
 
     def _cyclic_batch(self, specs):
         """Cyclic flows are no valid segments (outside the property); what is compared is the traversal alone: the
@@ -1192,15 +1368,34 @@ class C01(fw.Check):
         c = self.extra.setdefault('mechanism_level_differences', {})
         c[what] = c.get(what, 0) + 1
 
-    def _compare(self, spec, impl, m, stream):
+    def _expected_failure(self, ex, a):
+        """(what, kind) when the accessor is set up to fail an operation this segment performs, else None."""
+        if a is None:
+            return None
+        try:
+            _, ocommit, _ = eval_graph(ex, a)
+        except Fault as f:
+            return ('load', f.kind)
+        except Cyclic:
+            return None
+        if ocommit is not None:
+            for what in ('dump', 'commit'):
+                if a.get(what + '_fault'):
+                    return (what, a[what + '_fault'])
+        return None
+
+    def _compare(self, spec, impl, m, stream, rnd=0, witness_spec=None):
         ex = impl['export']
         a = spec.get('assets')
-        key = (repr(seg_sexp(ex)), repr(a))
+        key = (repr(seg_sexp(ex)), repr(a), rnd)
+        # a later compilation of the same (head, tail) after the graph was extended: same demands, own signatures
+        pre = '' if rnd == 0 else f'compile #{rnd + 1} (after the graph between the same head and tail was extended): '
+        suf = '' if rnd == 0 else '-recompiled'
         if not (isinstance(m, list) and m and m[0] == 'all'):
             raise fw.MachineryError(f'model driver rejected a case: {m!r}')
         _, mcomp, mrun, meval, mdfs, mwf, mspec, mrerun = m
         nw = len(ex['workers'])
-        witness = {'spec': spec}
+        witness = {'spec': witness_spec or spec}
         # members of the segment = what Traversal.each visits; the order itself is incidental (the theorems hold for
         # every visit order), so only the visited *set* is compared with the model's traversal
         if sorted(mdfs[1]) != sorted(ex['order']):
@@ -1218,8 +1413,8 @@ class C01(fw.Check):
         elif stream == 'valid':
             raise fw.MachineryError('model driver does not report the traversal flags')
         if stream == 'valid' and sorted(ex['order']) != ex['reach']:
-            self.violate(f'segment traversal visits {sorted(ex["order"])} but the members reachable from the head are '
-                         f'{ex["reach"]}', witness, 'segment-members')
+            self.violate(f'{pre}segment traversal visits {sorted(ex["order"])} but the members reachable from the head are '
+                         f'{ex["reach"]}', witness, 'segment-members' + suf)
         # ---- compile --------------------------------------------------------------------------
         if impl['stage'] == 'compile':
             cls = impl['error']
@@ -1230,8 +1425,8 @@ class C01(fw.Check):
             elif mcomp[1] != ERRMAP.get(cls, cls):
                 self._mech(f'exception class {cls} vs model {mcomp[1]}')
             if stream == 'valid' and impl['rank'] is not None:
-                sig = f'compile-raises-{cls}'
-                self.violate(f'flow.compile raises {cls} on a valid segment ({len(ex["workers"])} workers, '
+                sig = f'compile-raises-{cls}' + suf
+                self.violate(f'{pre}flow.compile raises {cls} on a valid segment ({len(ex["workers"])} workers, '
                              f'{len(ex["edges"])} subscriptions)', witness, sig)
             return
         if mcomp[0] != 'ok':
@@ -1254,8 +1449,8 @@ class C01(fw.Check):
                 self.diverge('cyclic compiled table', witness, 'cyclic' if ih is None else 'acyclic',
                              'cyclic' if mh is None else 'acyclic')
             if ih is None and stream == 'valid' and impl['rank'] is not None:
-                self.violate('the compiled table of an acyclic segment is cyclic (executing it never terminates)', witness,
-                             'run-raises-Cyclic')
+                self.violate(pre + 'the compiled table of an acyclic segment is cyclic (executing it never terminates)',
+                             witness, 'run-raises-Cyclic' + suf)
             return
         isyms = sorted(ih[k] for k, _, _ in itab)
         msyms = sorted(mh[k] for k, _, _ in mtab)
@@ -1285,13 +1480,36 @@ class C01(fw.Check):
         shape = (f'{stream}: w={min(nw, 9) if nw < 9 else "9+"} falsy={"y" if nfalsy else "n"} getters={"y" if kinds["getter"] else "n"} '
                  f'trainers={sum(1 for _, d, _ in itab if d[0] == "functor" and d[-1] == "train")} '
                  f'assets={"none" if a is None else len(a["persistent"])}')
+        expect = self._expected_failure(ex, a) if stream == 'valid' and impl['rank'] is not None else None
+        if expect is not None:
+            # the accessor refuses a load (not with MissingError), a dump or the commit: the failure has to escape - the
+            # execution raises, nothing is committed; an actor silently run without its state is what must not happen
+            what, kind = expect
+            cls = type(fault_exc(kind)).__name__
+            if impl['stage'] == 'run':
+                self.case(key, f'{stream}: accessor fails the {what} ({kind}): the run raises', nontrivial=nw >= 3)
+                if what == 'load' and not model_raised:
+                    self.diverge('run outcome with a refused load', witness, impl['error'], 'no error value')
+                if impl['error'] != cls:
+                    self._mech(f'accessor raised {cls}, the execution raised {impl["error"]}')
+                if impl.get('commits'):
+                    self.violate(f'{pre}a generation was committed ({impl["commits"]}) although the {what} failed ({cls})',
+                                 witness, 'commit-after-failure' + suf)
+            else:
+                self.case(key, f'{stream}: accessor fails the {what} ({kind}): the run completes', nontrivial=nw >= 3)
+                got = sorted(repr(impl['values'][k]) for k, d, _ in itab if d[0] == 'functor')[:2]
+                self.violate(f'{pre}the asset accessor failed the {what} of a persistent state with {cls} (not the documented '
+                             f'MissingError) but executing the compiled table completed, committing {impl["commits"]}: '
+                             f'tasks ran as {got}', witness, f'accessor-{what}-failure-swallowed' + suf)
+            return
         if impl['stage'] == 'run':
             self.case(key, f'{stream}: run raises {impl["error"]}', nontrivial=False)
-            if not model_raised:
+            if not model_raised and not (a and (a.get('dump_fault') or a.get('commit_fault'))):
+                # (dump / commit failures of the accessor are not in the model: oracle only, valid stream only)
                 self.diverge('run outcome', witness, impl['error'], 'no error value')
             if stream == 'valid' and impl['rank'] is not None:
-                self.violate(f'executing the compiled table raises {impl["error"]} on a valid segment', witness,
-                             f'run-raises-{impl["error"]}')
+                self.violate(f'{pre}executing the compiled table raises {impl["error"]} on a valid segment', witness,
+                             f'run-raises-{impl["error"]}' + suf)
             return
         self.case(key, shape, nontrivial=nw >= 3,
                   sample={'workers': ex['workers'], 'edges': ex['edges'], 'assets': a, 'order': ex['order'],
@@ -1321,8 +1539,8 @@ class C01(fw.Check):
         valid = impl['rank'] is not None and stream == 'valid'
         try:
             ovals, ocommit, ocalls = eval_graph(ex, a)
-        except Cyclic:
-            return
+        except (Cyclic, Fault):
+            return  # (a refused load on a segment that is not judged: malformed stream / D22)
         # Lean evalGraph == Python evalGraph (the two spec twins)
         if meval == 'cyclic':
             self.diverge('evalGraph: Lean spec calls the graph cyclic, the Python oracle does not', witness, 'acyclic', meval)
@@ -1344,7 +1562,10 @@ class C01(fw.Check):
                          'describes', mspec)
         if not valid:
             return
-        self._judge(impl, itab, ovals, ocommit, ocalls, a, ex, witness, '')
+        if rnd:
+            done = self.extra.setdefault('recompilations_judged', {})
+            done[f'compile #{rnd + 1}'] = done.get(f'compile #{rnd + 1}', 0) + 1
+        self._judge(impl, itab, ovals, ocommit, ocalls, a, ex, witness, suf, pre)
         # ---- re-execution of the same compiled table (instructions must not carry state across executions) ----------
         if a is None or not impl.get('reruns'):
             return
@@ -1436,6 +1657,25 @@ class C01(fw.Check):
         for chunk in range(0, len(fam), 1000):
             self._batch(fam[chunk:chunk + 1000], 'valid')
         self.notes.append(f'trainer feature/label port family: {len(fam)} segments')
+        more = []
+        for i, sp in enumerate(fam):
+            if i % 4 == 0:
+                # the trained fork is attached after the first compilation
+                more.append(dict(sp, stages=[1 if sub[0] == 't' else 0 for sub in sp['subs']]))
+            if i % 16 == 1 and sp['assets'] is not None:
+                for kind in FAULTS:
+                    more.append(dict(sp, assets={'persistent': [2], 'prev': [kind]}))
+                more.append(dict(sp, assets={'persistent': [2], 'prev': [True], 'dump_fault': 'crash'}))
+                more.append(dict(sp, assets={'persistent': [2], 'prev': [True], 'commit_fault': 'invalid'}))
+        for base in (CORPUS[2], CORPUS[3]):
+            tr = [i for i, sub in enumerate(base['subs']) if sub[0] == 't']
+            for plan in ((1, 1), (1, 2), (2, 1), (0, 1)):
+                if base is CORPUS[2] or plan in ((1, 1),):  # CORPUS[3]: both groups persistent - they move together
+                    more.append(dict(base, stages=[plan[tr.index(i)] if i in tr else 0 for i in range(len(base['subs']))]))
+        for chunk in range(0, len(more), 1000):
+            self._batch(more[chunk:chunk + 1000], 'valid')
+        self.notes.append(f'... of which staged (compiled again after the trainer was attached) / with a failing accessor: '
+                          f'{len(more)} more')
         fam = list(enum_falsy())
         for chunk in range(0, len(fam), 1000):
             self._batch(fam[chunk:chunk + 1000], 'valid')
@@ -1446,7 +1686,10 @@ class C01(fw.Check):
         for _ in range(self.n(1500, 15000)):
             hi = 12 if self.quick else 25
             size = rng.choice([2, 3, 3, 4, 5, 6, 8, 10, hi])
-            specs.append(gen_bounded(rng, size))
+            spec = gen_bounded(rng, size)
+            if rng.random() < 0.25:
+                spec = stage_spec(rng, spec) or spec
+            specs.append(spec)
         for chunk in range(0, len(specs), 500):
             self._batch(specs[chunk:chunk + 500], 'valid')
         mal = [gen_bounded(rng, rng.choice([3, 4, 6, 9]), mode='train', want_assets=True, malformed=True)
@@ -1534,11 +1777,12 @@ class C01(fw.Check):
         impl = run_impl(spec)
         if impl['stage'] == 'build':
             return []
-        impl['rank'] = topo_rank(impl['export'])
         try:
-            probe._compare(spec, impl, sexp.num(sexp.loads(_FAKE_ALL)), 'valid')
+            for rnd, view, r in self._rounds(spec, impl):
+                r['rank'] = topo_rank(r['export'])
+                probe._compare(view, r, sexp.num(sexp.loads(_FAKE_ALL)), 'valid', rnd, spec)
         except Exception:  # pylint: disable=broad-except
-            return []
+            return probe.violations
         return probe.violations
 
     def _shrink(self, v):
@@ -1582,13 +1826,16 @@ def _smaller(spec):
         def ren(i):
             return i - 1 if i > victim else i
 
-        subs = []
-        for s in spec['subs']:
+        subs, stages = [], []
+        for s, st in zip(spec['subs'], spec.get('stages') or [0] * len(spec['subs'])):
             if s[1] == victim:
                 continue
             subs.append(['a', ren(s[1]), s[2], ren(s[3]), s[4]] if s[0] == 'a' else ['t', ren(s[1]), ren(s[2]), s[3], ren(s[4]), s[5]])
+            stages.append(st)
+        if max(stages or [0]) < max(spec.get('stages') or [0]):
+            stages = [min(st, 1) for st in stages]  # a stage became empty: keep the stage numbers contiguous
         yield dict(spec, nodes=spec['nodes'][:victim] + spec['nodes'][victim + 1:], subs=subs, head=ren(spec['head']),
-                   tail=None if spec['tail'] is None else ren(spec['tail']))
+                   tail=None if spec['tail'] is None else ren(spec['tail']), stages=stages)
 
 
 if __name__ == '__main__':
